@@ -62,7 +62,7 @@ def _copy_tree(repo, dst):
     shutil.copytree(os.path.join(repo, 'src'), os.path.join(dst, 'src'))
 
 
-def _prune(d, keep=6):
+def _prune(d, keep=14):
     try:
         ents = [(os.path.getmtime(os.path.join(d, e)), e) for e in os.listdir(d)]
     except FileNotFoundError:
@@ -135,6 +135,7 @@ def real_binary(repo=REPO, release=False):
                 raise BuildError('cargo build failed:\n%s' % p.stderr.decode(errors='replace')[-3000:])
             os.makedirs(out, exist_ok=True)
             shutil.copy2(os.path.join(tdir, prof, 'blockwatch'), binp + '.tmp')
+            subprocess.run(['strip', binp + '.tmp'], stdout=subprocess.DEVNULL, stderr=subprocess.DEVNULL)
             os.rename(binp + '.tmp', binp)
         finally:
             shutil.rmtree(scratch, ignore_errors=True)
